@@ -192,14 +192,43 @@ def run_announce_history(ops):
     L = lablib()
     lab = StackLab()
     boot.swallowed.take()
-    iut = lab.add_stack(1, hist_app(), segmentation="segmentedBoth", max_apdu=1476, max_segs=64, retries=0, apdu_timeout=1000, seg_timeout=500, app_timeout=3000)
+    iut = lab.add_stack(1, hist_app(), segmentation="segmentedBoth", max_apdu=1476, max_segs=64, retries=2, apdu_timeout=1000, seg_timeout=500, app_timeout=3000)
     att = lab.add_attacker(99)
     said = {}            # addr -> dict(device, max_apdu, can_receive)
     fails = []
     stats = dict(sends=0, judged=0, binding=0, moved=0, upgraded=0)
     inv_peer = [0]
+    scanned = [0]
+    known_at_send = {}
+
+    def scan_retries():
+        """every request APDU that left for an announced address since the last look - first transmissions and retries alike - respects what
+        that address had announced by then"""
+        for (t, src, dst, data) in att.seen[scanned[0]:]:
+            if src is None or src.addrAddr != b"\x01" or dst is None or len(dst.addrAddr) != 1 or dst.addrAddr[0] not in said:
+                continue
+            try:
+                nn = RN.decode(data)
+                if nn["msg"] is not None:
+                    continue
+                a = RA.decode(nn["data"])
+            except Exception:
+                continue
+            if a["type"] != 0 or known_at_send.get((dst.addrAddr[0], a["invoke"])) != said[dst.addrAddr[0]]["device"] or a.get("seg"):
+                continue              # (a transaction that began before this device had announced itself from the address is not judged; a segmented
+                                      #  transfer in progress cannot be re-sliced, its segment retransmissions keep their size)
+            v = said[dst.addrAddr[0]]
+            if len(nn["data"]) > v["max_apdu"] or (a.get("seg") and not v["can_receive"]):
+                what = "exceeds-announced-max-apdu" if len(nn["data"]) > v["max_apdu"] else "segmented-toward-peer-that-cannot-receive-segments"
+                fails.append(("hist:retransmission:%s" % what, "history %r: at t=%.1f a request APDU of %d octets (%s) left for address %d, which had last announced max-APDU %d, %s"
+                              % (ops, t, len(nn["data"]), "segment" if a.get("seg") else "unsegmented", dst.addrAddr[0], v["max_apdu"], "can receive segments" if v["can_receive"] else "cannot receive segments")))
+                break
+        scanned[0] = len(att.seen)
+
     for op in ops:
         k = op[0]
+        if not fails:
+            scan_retries()
         if k == "iam":
             _, dev, addr, mx, seg = op
             # a device that announces from a new address is no longer at its old one
@@ -213,7 +242,7 @@ def run_announce_history(ops):
         elif k == "peer-req":
             _, addr, sa, seg_first, maxresp = op
             inv_peer[0] = (inv_peer[0] + 1) % 200
-            body = bytes.fromhex("0903e71901")           # vendor 999, service 1, no parameters
+            body = bytes.fromhex("0a03e71901")           # vendor 999, service 1, no parameters
             apdu = RA.encode(dict(type=RA.CONF, seg=bool(seg_first), mor=bool(seg_first), sa=bool(sa), maxsegs=0, maxresp=maxresp, invoke=inv_peer[0], service=18, data=body,
                                   seq=0, win=2))
             lab.inject(addr, 1, RN.encode(dict(msg=None, dadr=None, sadr=None, er=True, prio=0, hop=None, data=apdu)))
@@ -231,6 +260,7 @@ def run_announce_history(ops):
             req.serviceParameters = L.Any(L.OctetString(pattern(n, 0x21)))
             req.pduDestination = L.Address(addr)
             mark = len(att.seen)
+            scanned[0] = mark          # (frames of this request's first transmission are judged right here)
             n_out = len(iut.app.outcomes)
             try:
                 iut.app.request(req)
@@ -239,6 +269,7 @@ def run_announce_history(ops):
                 break
             lab.settle()
             inv = req.apduInvokeID
+            known_at_send[(addr, inv)] = said[addr]["device"] if addr in said else None
             sent = []
             for (t, src, dst, data) in att.seen[mark:]:
                 if src is None or src.addrAddr != b"\x01" or dst is None or dst.addrAddr != bytes([addr]):
@@ -277,13 +308,96 @@ def run_announce_history(ops):
                 pass     # (already reported above as too long or as segmented)
         if fails:
             break
+    if not fails:
+        lab.run(lab.now + 4.0)
+        scan_retries()
     sw = [r for r in boot.swallowed.take() if r[0]]
     if fails and sw:
         fails = [(fails[0][0] + ":%s@%s" % (sw[0][0], sw[0][1]), fails[0][1] + " swallowed %r" % (sw[:2],))] + fails[1:]
     return fails[:2], stats
 
 
+
+# ---- a requester that changes the window from ack to ack -------------------------------------------------------------------------
+
+def run_window_dialog(wins, nseg, s_win):
+    """a hand-driven requester takes a segmented answer of about nseg segments (50-octet APDUs) and offers the windows `wins` in turn
+    in its segment-acks; after an ack offering w the responder may send at most w segments before the next ack"""
+    from ..lab_stack import StackLab, lib as lablib
+    from .. import clock as VC
+    from .. import boot
+    from ..ref import npci as RN
+    L = lablib()
+    ClientApp, IOClientApp, ServerApp = txn.apps()
+    lab = StackLab()
+    boot.swallowed.take()
+    srv = lab.add_stack(2, ServerApp, segmentation="segmentedBoth", max_apdu=1024, max_segs=64, window=s_win, retries=1, apdu_timeout=3000, seg_timeout=1500, app_timeout=3000)
+    srv.app.rsp = "ack"
+    srv.app.rsp_len = txn.payload_for_total(nseg * 44 - 3)
+    att = lab.add_attacker(99)
+    inv = 7
+    body = bytes.fromhex("0a03e71901")
+    apdu = RA.encode(dict(type=RA.CONF, seg=False, mor=False, sa=True, maxsegs=0, maxresp=0, invoke=inv, service=18, data=body))
+    lab.inject(99, 2, RN.encode(dict(msg=None, dadr=None, sadr=None, er=True, prio=0, hop=None, data=apdu)))
+    lab.settle()
+    fails = []
+    pos = 0
+    acked = -1
+    offered = None          # window offered in our last ack
+    bursts = []
+    done = False
+    for rnd in range(len(wins) + 2 * nseg + 5):
+        segs = []
+        for (t, src, dst, data) in att.seen[pos:]:
+            if src is None or src.addrAddr != b"\x02":
+                continue
+            try:
+                a = RA.decode(RN.decode(data)["data"])
+            except Exception:
+                continue
+            if a["type"] == 3 and a.get("seg") and a["invoke"] == inv:
+                segs.append(a)
+            elif a["type"] == 7 and a.get("invoke") == inv:
+                return fails, dict(bursts=bursts, done=False, aborted=a.get("reason"))
+        pos = len(att.seen)
+        if not segs:
+            break
+        bursts.append((offered, len(segs)))
+        if offered is not None and len(segs) > offered:
+            fails.append(("window:burst-exceeds-last-offer", "after a segment-ack offering window %d the responder sent %d segments (sequence numbers %r); offers so far %r, responder's own window %d"
+                          % (offered, len(segs), [a_["seq"] for a_ in segs], wins[:rnd + 1], s_win)))
+            break
+        if segs[0]["seq"] == 0 and offered is None and len(segs) != 1:
+            fails.append(("window:first-burst", "%d segments before the first segment-ack" % len(segs)))
+            break
+        w = wins[min(rnd, len(wins) - 1)]
+        highest = acked
+        for a_ in segs:
+            if a_["seq"] == (highest + 1) % 256:
+                highest += 1
+        # acknowledge no more of this burst than the window we are about to offer holds
+        ack_to = min(highest, acked + max(1, w)) if offered is not None else highest
+        if any((not a_["mor"]) and a_["seq"] == ack_to % 256 for a_ in segs):
+            done = True
+        acked = ack_to
+        offered = w
+        ack = RA.encode(dict(type=RA.SEGACK, nak=False, srv=False, invoke=inv, seq=acked % 256, win=w))
+        lab.inject(99, 2, RN.encode(dict(msg=None, dadr=None, sadr=None, er=False, prio=0, hop=None, data=ack)))
+        lab.settle()
+        if done:
+            break
+    return fails, dict(bursts=bursts, done=done, aborted=None)
+
+
 def judge(case):
+    if case.get("k") == "window":
+        try:
+            with watchdog(60):
+                fails, st_ = run_window_dialog(case["wins"], case["nseg"], case["s_win"])
+        except Stall:
+            return Verdict([("stall", "no return within 60 s")], True, ("stall",))
+        varied = len(set(case["wins"])) > 1
+        return Verdict(fails, varied and len(st_["bursts"]) > 2, ["window-dialog"] + (["window-dialog:completed"] if st_["done"] else []))
     if case.get("k") == "announce":
         try:
             with watchdog(60):
@@ -351,10 +465,21 @@ def plan(tier, seed):
         specs.append(dict(name="random-%d" % i, kind="random", n=2500 if tier == "quick" else 40000))
     for i in range(6):
         specs.append(dict(name="announcements-%d" % i, kind="announce", n=1500 if tier == "quick" else 40000))
+    specs.append(dict(name="varying-window", kind="vwindow", n=400 if tier == "quick" else 6000))
     return specs
 
 
 def run(spec, ctx):
+    if spec["kind"] == "vwindow":
+        from hypothesis import strategies as st
+        for w1 in (1, 2, 3, 4, 8):
+            for w2 in (1, 2, 3, 4, 8):
+                for s_win in (2, 4, 16):
+                    ctx.check(dict(k="window", wins=[w1, w1, w2, w2, w1, w2], nseg=20, s_win=s_win))
+        strat = st.tuples(st.lists(st.sampled_from([1, 1, 2, 3, 4, 5, 8, 16, 127]), min_size=2, max_size=12), st.sampled_from([6, 14, 30]), st.sampled_from([1, 2, 4, 8, 127])).map(
+            lambda t: dict(k="window", wins=t[0], nseg=t[1], s_win=t[2]))
+        ctx.for_all(strat, spec["n"])
+        return
     if spec["kind"] == "announce":
         from hypothesis import strategies as st
         addr = st.sampled_from([11, 12, 13])
@@ -362,8 +487,8 @@ def run(spec, ctx):
         send = st.tuples(st.just("send"), addr, st.sampled_from([0, 5, 38, 39, 40, 41, 100, 116, 117, 118, 119, 194, 195, 196, 197, 300, 468, 469, 470, 471, 600, 1012, 1013, 1014, 1015,
                                                                1400, 1464, 1465, 1466, 1467, 1500, 3000])).map(list)
         preq = st.tuples(st.just("peer-req"), addr, st.booleans(), st.booleans(), st.sampled_from([0, 1, 3, 5])).map(list)
-        adv = st.tuples(st.just("adv"), st.sampled_from([0.0, 1.5, 5.0])).map(list)
-        ctx.for_all(st.lists(st.one_of(iam, iam, iam, send, send, send, preq, adv), min_size=2, max_size=14).map(lambda o: dict(k="announce", ops=o)), spec["n"])
+        adv = st.tuples(st.just("adv"), st.sampled_from([0.0, 0.5, 1.1, 1.5, 5.0])).map(list)
+        ctx.for_all(st.lists(st.one_of(iam, iam, iam, send, send, send, preq, adv, adv), min_size=2, max_size=14).map(lambda o: dict(k="announce", ops=o)), spec["n"])
         return
     if spec["kind"] == "caps":
         space = cfg_space(spec["tier"])
